@@ -11,14 +11,18 @@ G : Lean leaf-contract check `checkGen` (proved to imply Sound.gen and the C19 w
 E : Lean leaf-contract check `checkEnc` (proved, via the frame theorem of the specification inflater, to imply the `enc`
     clause of Writer.Sound / HSound for the call) applied to EVERY block the real block encoders emit (Huffman code
     generation, dynamic header, token / byte packing in Go or assembly, bit buffer), at every acceleration level
+F : Lean session check `checkFaithful` (meaning proved in Reader/FaithfulCheck.lean): complete sessions of the real flate
+    Reader (every acceleration level, random chunking / bufio size / Read sizes; valid, synthesised, faulty, cut, flipped
+    streams followed by foreign bytes) judged by the specification inflater directly: delivered bytes are a prefix of its
+    output, io.EOF iff complete and completely delivered with the source exactly behind the final block, error kinds
 K : Lean checksum / gzip / zlib header and trailer definitions vs hash/crc32, hash/adler32 and fastgo's container bytes
 """
 KINDS = {
     "C01": ["I", "W", "H", "G", "E"],
-    "C02": ["I", "R"],
-    "C03": ["I", "R"],
+    "C02": ["I", "R", "F"],
+    "C03": ["I", "R", "F"],
     "C04": ["R"],
-    "C05": ["R"],
+    "C05": ["R", "F"],
     "C06": ["K", "ZW", "GW"],
     "C07": ["K"],
     "C08": ["K"],
@@ -30,9 +34,9 @@ KINDS = {
     "C14": ["W", "ZW", "GW"],
     "C15": ["R"],
     "C16": ["W", "ZW", "GW"],
-    "C18": ["R", "W", "G", "E"],
+    "C18": ["R", "W", "G", "E", "F"],
     "C19": ["I", "W", "G"],
     "C20": ["W", "H", "G", "E"],
 }
-COUNT = {"I": (300, 3000), "W": (600, 6000), "R": (400, 4000), "K": (600, 6000), "G": (600, 6000), "H": (400, 4000), "ZW": (300, 3000), "GW": (300, 3000), "E": (120, 1500)}
-PER_LEVEL = {"G", "E"}
+COUNT = {"I": (300, 3000), "W": (600, 6000), "R": (400, 4000), "K": (600, 6000), "G": (600, 6000), "H": (400, 4000), "ZW": (300, 3000), "GW": (300, 3000), "E": (120, 1500), "F": (300, 3000)}
+PER_LEVEL = {"G", "E", "F"}
